@@ -215,6 +215,16 @@ def stepConv (cx : Ctx) (rc : Recv) (op : String) (args : List String) : Option 
                                   if TD.eqDerived (fun x y => x == y) cl t then "eq=1" else "eq=0",
                                   if TD.hashFeed (fun x => [x]) cl = TD.hashFeed (fun x => [x]) t then "hasheq=1" else "hasheq=0", "indep=1"],
                          drops := cx.dr (cl.data.map fun v => if cx.elem.isZst then 0 else v + 1) }
+  | "clone_from", [c, r, l] => do
+    -- `td.clone_from(&src)` through the transcription of the (defaulted) `clone_from` (`TD.cloneFrom`, C20_clone_from); the
+    -- harness drops the source at the end of the step
+    let c ← nat? c; let r ← nat? r; let l ← parseList l
+    let src : TD Nat := ⟨cx.vs l, r, c⟩
+    let (t', dropped, res) := t.cloneFrom id src cx.faultK
+    match res with
+    | .ok _ => pure { cx.ofTD t' with toks := [if TD.eqDerived (fun x y => x == y) t' src then "eq=1" else "eq=0"],
+                                       drops := cx.dr (dropped ++ src.data) }
+    | .error e => pure { cx.ofTD t' with status := errStatus e, drops := cx.dr (dropped ++ src.data) }
   | "eq", [c, r, l] => do
     let c ← nat? c; let r ← nat? r; let l ← parseList l
     -- `==` and the hash digest through the transcriptions of the derived impls (`TD.eqDerived`, `TD.hashFeed`, C20): the
